@@ -11,6 +11,7 @@ import ast
 import contextlib
 import inspect
 import io
+import os
 import itertools
 import typing
 
@@ -22,6 +23,8 @@ ASSUMPTIONS = ["ast.parse decides syntactic validity", "inspect.signature is the
                "default values in the stub are not demanded; the configuration parameter is a named positional"]
 
 GROUPS = ["scalars", "secure", "containers", "nested", "virtual", "misc"]
+BAD_ENV = "C20_BAD_INT"
+LOUD = [False]        # default factories talk only while a stub is being generated
 
 
 class Marker:
@@ -39,7 +42,19 @@ def build_schema(groups, dynamic=False):
         attrs.append(key)
         if not virtual:
             persistent.append(key)
+    counter = [0]
+
+    def factory():
+        counter[0] += 1
+        if LOUD[0]:
+            print("default factory called")
+        return 3
+    s._verif_counter = counter
     if "scalars" in groups:
+        add("s_factory", cc.IntField(default=factory))          # a default factory with a visible side effect
+        add("s_envint", cc.IntField(env=BAD_ENV))               # bound to a variable that will hold an invalid value
+        shared = cc.IntField()
+        add("s_alias_a", shared); add("s_alias_b", shared)      # one field object under two keys
         add("s_str", cc.StringField(default="x")); add("s_int", cc.IntField()); add("s_float", cc.FloatField())
         add("s_port", cc.PortField()); add("s_bool", cc.BoolField()); add("s_ip", cc.IPv4AddressField())
         add("s_net", cc.IPv4NetworkField()); add("s_host", cc.HostnameField()); add("s_url", cc.UrlField())
@@ -182,11 +197,14 @@ def gen(target_obj, name):
     import cincoconfig as cc
     buf = io.StringIO()
     with contextlib.redirect_stdout(buf):
+        LOUD[0] = True
         try:
             stub = cc.generate_stub(target_obj, name) if name else cc.generate_stub(target_obj)
             res = ("ok", stub)
         except Exception as exc:  # noqa
             res = ("raise", exc)
+        finally:
+            LOUD[0] = False
     return res, buf.getvalue()
 
 
@@ -221,7 +239,11 @@ def check_fields(ctx, groups, target):
 
     def bad(what, msg):
         ctx.violation(fp + what, "field groups %s via %s: %s" % (groups, target, msg), case, size=len(groups))
-    cfg = schema()
+    import contextlib as _cl
+    with _cl.redirect_stdout(io.StringIO()):
+        cfg = schema()
+    os.environ[BAD_ENV] = "not-a-number"         # from here on building a configuration of this schema would fail
+    calls0 = schema._verif_counter[0]
     if target == "Schema":
         obj, name = schema, "Stub"
     elif target == "DynamicConfig":
@@ -244,8 +266,11 @@ def check_fields(ctx, groups, target):
     if res[0] == "ok" and res_again != res:
         bad("not-repeatable", "a second generation gives a different stub")
     ctx.case((tuple(groups), target), "fields:%s" % res[0], bool(groups))
+    os.environ.pop(BAD_ENV, None)
     if out:
         bad("stdout", "generate_stub wrote to standard output: %r" % out[:80])
+    if schema._verif_counter[0] != calls0:
+        bad("default-factory-called", "generate_stub evaluated a callable default %d time(s)" % (schema._verif_counter[0] - calls0))
     if res[0] == "raise":
         bad("raises-" + type(res[1]).__name__ + "|" + _blame(groups), "generate_stub raised %r" % (res[1],))
         return
